@@ -368,7 +368,8 @@ TokenOp(name, t) ==
 TokenOpGuard(name, t) ==
   LET tk == issued[t]  s == SrcAt(tk.id, tk.ver) IN
   IF s = NoSrc THEN TRUE
-  ELSE /\ name = "enable" => (~enabled[s] /\ ~Borrowed(s))
+  \* (enabling an fd-backed source that is enabled already is allowed: it fails with EEXIST and changes nothing)
+  ELSE /\ name = "enable" => (~Borrowed(s) /\ (~enabled[s] \/ KindOf(s) # "timer"))
        /\ name = "update" => (enabled[s] /\ (Borrowed(s) => pending = "continue"))
        /\ name = "disable" => (enabled[s] /\ (Borrowed(s) => pending = "continue"))
 
